@@ -117,3 +117,233 @@ VARIANTS = [
       find='\tif numOKResults == len(certResults) {\n\t\tfinalResult = revocationresult.ResultOK\n\t}',
       replace='\tif numOKResults == len(certResults) && !revokedFound {\n\t\tfinalResult = revocationresult.ResultOK\n\t}'),
 ]
+
+# ---- shapes accepted after the false-alarm round on four independent refactorings ----------------------------------
+# Each new shape has a silent variant (the base tree rewritten into the shape) and flagged variants (the shape with the
+# property broken).
+
+# shape H: the validator dispatch and the signing-time computation live in unexported helpers
+_TIME_BLOCK = """	var authenticSigningTime time.Time
+	if outcome.EnvelopeContent.SignerInfo.SignedAttributes.SigningScheme == signature.SigningSchemeX509SigningAuthority {
+		authenticSigningTime, _ = outcome.EnvelopeContent.SignerInfo.AuthenticSigningTime()
+	}
+
+"""
+_DISPATCH = """	var certResults []*revocationresult.CertRevocationResult
+	var err error
+	if v.revocationCodeSigningValidator != nil {
+		certResults, err = v.revocationCodeSigningValidator.ValidateContext(ctx, revocation.ValidateContextOptions{
+			CertChain:            outcome.EnvelopeContent.SignerInfo.CertificateChain,
+			AuthenticSigningTime: authenticSigningTime,
+		})
+	} else {
+		certResults, err = v.revocationClient.Validate(outcome.EnvelopeContent.SignerInfo.CertificateChain, authenticSigningTime)
+	}
+"""
+_ANCHOR = "func processPluginResponse("
+
+def _helpers(call_chain='outcome.EnvelopeContent.SignerInfo.CertificateChain', guard=True, swallow=False, inner_chain='chainArg', client_time='whenArg'):
+    time_body = """	var when time.Time
+	if si.SignedAttributes.SigningScheme == signature.SigningSchemeX509SigningAuthority {
+		when, _ = si.AuthenticSigningTime()
+	}
+	return when
+""" if guard else """	when, _ := si.AuthenticSigningTime()
+	return when
+"""
+    ctx_ret = """		return recv.revocationCodeSigningValidator.ValidateContext(ctxArg, revocation.ValidateContextOptions{
+			CertChain:            %s,
+			AuthenticSigningTime: whenArg,
+		})
+""" % inner_chain
+    if swallow:
+        ctx_ret = """		res, _ := recv.revocationCodeSigningValidator.ValidateContext(ctxArg, revocation.ValidateContextOptions{
+			CertChain:            %s,
+			AuthenticSigningTime: whenArg,
+		})
+		return res, nil
+""" % inner_chain
+    caller = "	authenticSigningTime := timeForRevocation(&outcome.EnvelopeContent.SignerInfo)\n	certResults, err := v.consultValidators(ctx, %s, authenticSigningTime)\n" % call_chain
+    helpers = ("func timeForRevocation(si *signature.SignerInfo) time.Time {\n" + time_body + "}\n\n" +
+               "func (recv *verifier) consultValidators(ctxArg context.Context, chainArg []*x509.Certificate, whenArg time.Time) ([]*revocationresult.CertRevocationResult, error) {\n" +
+               "	if recv.revocationCodeSigningValidator != nil {\n" + ctx_ret + "	}\n" +
+               "	return recv.revocationClient.Validate(chainArg, %s)\n}\n\n" % client_time)
+    return [(V, _TIME_BLOCK + _DISPATCH, caller), (V, _ANCHOR, helpers + _ANCHOR)]
+
+VARIANTS += [
+ dict(name='benign-dispatch-and-time-helpers', expect='silent', edits=_helpers(),
+      why='the operands are parameters of closed helpers: judged at the call site; the error/results are forwarded by every return of the helper'),
+ dict(name='helper-caller-passes-leaf-only', expect='flagged(args/chain)', edits=_helpers(call_chain='outcome.EnvelopeContent.SignerInfo.CertificateChain[:1]')),
+ dict(name='helper-slices-chain-inside', expect='flagged(args/chain-context-validator)', edits=_helpers(inner_chain='chainArg[:1]')),
+ dict(name='helper-time-without-scheme-guard', expect='flagged(args/signing-time-only-for-signing-authority)', edits=_helpers(guard=False)),
+ dict(name='helper-client-gets-zero-time', expect='flagged(args/same-signing-time)', edits=_helpers(client_time='time.Time{}')),
+ dict(name='helper-swallows-validator-error', expect='flagged(result/validator-error)', edits=_helpers(swallow=True)),
+]
+
+# shape E: the error is collected in a local and the result object is built once, at the return
+_RESULT_TAIL = """	result := &notation.ValidationResult{
+		Type:   trustpolicy.TypeRevocation,
+		Action: outcome.VerificationLevel.Enforcement[trustpolicy.TypeRevocation],
+	}
+	finalResult, problematicCertSubject := revocationFinalResult(certResults, outcome.EnvelopeContent.SignerInfo.CertificateChain, logger)
+	switch finalResult {
+	case revocationresult.ResultOK:
+		logger.Debug("No verification impacting errors encountered while checking revocation, status is OK")
+	case revocationresult.ResultRevoked:
+		result.Error = fmt.Errorf("signing certificate with subject %q is revoked", problematicCertSubject)
+	default:
+		// revocationresult.ResultUnknown
+		result.Error = fmt.Errorf("signing certificate with subject %q revocation status is unknown", problematicCertSubject)
+	}
+
+	return result
+}
+"""
+def _tail(ok_case='case revocationresult.ResultOK:'):
+    return """	action := outcome.VerificationLevel.Enforcement[trustpolicy.TypeRevocation]
+	var failure error
+	finalResult, problematicCertSubject := revocationFinalResult(certResults, outcome.EnvelopeContent.SignerInfo.CertificateChain, logger)
+	switch finalResult {
+	%s
+		logger.Debug("No verification impacting errors encountered while checking revocation, status is OK")
+	case revocationresult.ResultRevoked:
+		failure = fmt.Errorf("signing certificate with subject %%q is revoked", problematicCertSubject)
+	default:
+		failure = fmt.Errorf("signing certificate with subject %%q revocation status is unknown", problematicCertSubject)
+	}
+
+	return &notation.ValidationResult{
+		Type:   trustpolicy.TypeRevocation,
+		Action: action,
+		Error:  failure,
+	}
+}
+""" % ok_case
+
+VARIANTS += [
+ dict(name='benign-error-local-result-built-at-return', file=V, expect='silent', find=_RESULT_TAIL, replace=_tail(),
+      why='edges into the return block whose phi operand is a provably non-nil error lead to a failing exit only'),
+ dict(name='error-local-unknown-aggregate-passes', file=V, expect='flagged(result/aggregate-ok)', find=_RESULT_TAIL,
+      replace=_tail('case revocationresult.ResultOK, revocationresult.ResultUnknown:')),
+ dict(name='error-local-validator-error-ignored', expect='flagged(result/validator-error)',
+      edits=[(V, _RESULT_TAIL, _tail()),
+             (V, '\tif err != nil {\n\t\tlogger.Debug("Error while checking revocation status, err: %s", err.Error())',
+              '\tif err != nil && certResults == nil {\n\t\tlogger.Debug("Error while checking revocation status, err: %s", err.Error())')]),
+]
+
+# shape I: the aggregator remembers positions instead of values and assembles the pair after the loop
+_AGG_DECL = """	finalResult := revocationresult.ResultUnknown
+	numOKResults := 0
+	var problematicCertSubject string
+	if len(certResults) != len(certChain) {"""
+_AGG_DECL_I = """	finalResult := revocationresult.ResultUnknown
+	var problematicCertSubject string
+	if len(certResults) != len(certChain) {"""
+_AGG_FLAGS = """	revokedFound := false
+	var revokedCertSubject string
+	for i := len(certResults) - 1; i >= 0; i-- {"""
+_AGG_FLAGS_I = """	lastBad := -1
+	lastRevoked := -1
+	for i := len(certResults) - 1; i >= 0; i-- {"""
+_AGG_CLASSIFY = """		if certResult.Result == revocationresult.ResultOK || certResult.Result == revocationresult.ResultNonRevokable {
+			numOKResults++
+		} else {
+			finalResult = certResult.Result
+			problematicCertSubject = cert.Subject.String()
+			if certResult.Result == revocationresult.ResultRevoked {
+				revokedFound = true
+				revokedCertSubject = problematicCertSubject
+			}
+		}
+"""
+_AGG_CLASSIFY_I = """		if certResult.Result != revocationresult.ResultOK && certResult.Result != revocationresult.ResultNonRevokable {
+			lastBad = i
+			if certResult.Result == revocationresult.ResultRevoked {
+				lastRevoked = i
+			}
+		}
+"""
+_AGG_CLASSIFY_I_UNCOND = """		lastBad = i
+		if certResult.Result == revocationresult.ResultRevoked {
+			lastRevoked = i
+		}
+"""
+_AGG_CLASSIFY_I_REVOKED_ANY = """		if certResult.Result != revocationresult.ResultOK && certResult.Result != revocationresult.ResultNonRevokable {
+			lastBad = i
+			lastRevoked = i
+		}
+"""
+_AGG_TAIL = """	if revokedFound {
+		problematicCertSubject = revokedCertSubject
+		finalResult = revocationresult.ResultRevoked
+	}
+	if numOKResults == len(certResults) {
+		finalResult = revocationresult.ResultOK
+	}
+	return finalResult, problematicCertSubject
+}
+"""
+def _agg_tail(first='lastRevoked >= 0', revsubj='lastRevoked', order='revoked-first'):
+    rev = """	case %s:
+		finalResult = revocationresult.ResultRevoked
+		problematicCertSubject = certChain[%s].Subject.String()
+""" % (first, revsubj)
+    bad = """	case lastBad >= 0:
+		finalResult = certResults[lastBad].Result
+		problematicCertSubject = certChain[lastBad].Subject.String()
+"""
+    body = rev + bad if order == 'revoked-first' else bad + rev
+    return "	switch {\n" + body + """	default:
+		finalResult = revocationresult.ResultOK
+	}
+	return finalResult, problematicCertSubject
+}
+"""
+def _index_agg(classify=_AGG_CLASSIFY_I, **kw):
+    return [(V, _AGG_DECL, _AGG_DECL_I), (V, _AGG_FLAGS, _AGG_FLAGS_I), (V, _AGG_CLASSIFY, classify), (V, _AGG_TAIL, _agg_tail(**kw))]
+
+VARIANTS += [
+ dict(name='benign-index-remembering-aggregator', expect='silent', edits=_index_agg(),
+      why='index tags: a remembered position of a certificate of class v yields v when results[k].Result is read after the loop'),
+ dict(name='index-aggregator-bad-before-revoked', expect='flagged(aggregator/decision)', edits=_index_agg(order='bad-first')),
+ dict(name='index-aggregator-position-recorded-unconditionally', expect='flagged(aggregator/decision)', edits=_index_agg(classify=_AGG_CLASSIFY_I_UNCOND)),
+ dict(name='index-aggregator-leaf-position-ignored', expect='flagged(aggregator/decision)', edits=_index_agg(first='lastRevoked > 0')),
+ dict(name='index-aggregator-revoked-subject-of-other-cert', expect='flagged(aggregator/revoked-subject)', edits=_index_agg(revsubj='lastBad')),
+ dict(name='index-aggregator-revoked-position-of-any-bad', expect='flagged(aggregator/)', edits=_index_agg(classify=_AGG_CLASSIFY_I_REVOKED_ANY)),
+]
+
+# shape L: the per-certificate result is handed to a helper inside the loop
+_SERVER_LOOP = """		for _, serverResult := range certResult.ServerResults {
+			if serverResult.Error != nil {
+				// log individual server errors
+				if certResult.RevocationMethod == revocationresult.RevocationMethodOCSPFallbackCRL && serverResult.RevocationMethod == revocationresult.RevocationMethodOCSP {
+					// when the final revocation method is OCSPFallbackCRL,
+					// the OCSP server results should not be logged as an error
+					// since the CRL revocation check can succeed.
+					logger.Debugf("Certificate #%d in chain with subject %q encountered an error for revocation method %s at URL %q: %v", (i + 1), cert.Subject, revocationresult.RevocationMethodOCSP, serverResult.Server, serverResult.Error)
+					continue
+				}
+				logger.Errorf("Certificate #%d in chain with subject %q encountered an error for revocation method %s at URL %q: %v", (i + 1), cert.Subject, serverResult.RevocationMethod, serverResult.Server, serverResult.Error)
+			}
+		}
+"""
+def _log_helper(extra=''):
+    return [(V, _SERVER_LOOP, "\t\treportServerErrors(logger, i+1, cert, certResult)\n"),
+            (V, _ANCHOR, """func reportServerErrors(out log.Logger, position int, crt *x509.Certificate, one *revocationresult.CertRevocationResult) {
+	for _, sr := range one.ServerResults {
+		if sr.Error != nil {
+			out.Errorf("Certificate #%d in chain with subject %q encountered an error for revocation method %s at URL %q: %v", position, crt.Subject, sr.RevocationMethod, sr.Server, sr.Error)
+""" + extra + """		}
+	}
+}
+
+""" + _ANCHOR)]
+
+VARIANTS += [
+ dict(name='benign-server-error-logging-helper', expect='silent', edits=_log_helper()),
+ dict(name='logging-helper-downgrades-result', expect='flagged(aggregator/results-read-only)',
+      edits=_log_helper("\t\t\tif one.Result == revocationresult.ResultUnknown {\n\t\t\t\tone.Result = revocationresult.ResultNonRevokable\n\t\t\t}\n")),
+ dict(name='result-overwritten-between-reads', file=V, expect='flagged(aggregator/results-read-only)',
+      find='\t\t\tif certResult.Result == revocationresult.ResultRevoked {\n\t\t\t\trevokedFound = true',
+      replace='\t\t\tcertResult.Result = revocationresult.ResultRevoked\n\t\t\tif certResult.Result == revocationresult.ResultRevoked {\n\t\t\t\trevokedFound = true'),
+]
